@@ -93,7 +93,7 @@ def _one(job):
                     ok, why = False, "exported datagrams do not carry the capture times of their input datagrams"
     ev = [e for e in res.events if e["ev"] in ("qpn", "qepoch", "qcrypto", "qdec")]
     return dict(ok=ok, why=why, b=b, seed=seed, params=params, opts=opts, events=ev, pred_is_truth=(pred == truth), deviation=deviation, as_predicted=as_predicted,
-                pkts=[[dict(d=g.d, **m) for m in g.packets] for g in c.dgrams], nstream=len(pred))
+                pkts=[[dict(d=g.d, noise=(g.note == "NOISE"), **m) for m in g.packets] for g in c.dgrams], nstream=len(pred))
 
 
 def gen(chk, consts, num, seed, depth=40):
